@@ -2840,21 +2840,21 @@ def get_result_rule(A, fl, rule):
     for p in ps:
         v = PV(p)
         gi = [i for i, e in enumerate(v.ev) if e.kind == 'bind' and e.depth == 0 and
-              txt(e.target) == 'packets' and 'handle_get_request' in txt(e.expr)]
+              'socket.handle_get_request(' in txt(e.expr)]
         if not gi or p.outcome != 'return':
             continue
+        var = txt(v.ev[gi[0]].target)
         after = v.ev[gi[0] + 1:]
         if any(e.kind == 'exc' for e in after):
             continue        # what happens after a failure is the error rules' business
         pol = None
-        for e in after:
+        gpos = None
+        for k_, e in enumerate(after):
             if e.kind == 'guard' and e.depth == 0:
                 a, pl = atom(e.expr, e.pol)
-                if a == 'isinstance(packets, list)':
-                    pol = pl
+                if a == 'isinstance(%s, list)' % var:
+                    pol, gpos = pl, k_
                     break
-        rb = [txt(e.expr) for e in after if e.kind == 'bind' and e.depth == 0 and
-              txt(e.target) == 'r']
         if pol is None:
             A.violated(rule + '.get-result', '%s: the result of the session\'s GET handler is '
                        'classified (packet list or finished response)' % name,
@@ -2862,10 +2862,14 @@ def get_result_rule(A, fl, rule):
                        detail=v.describe(60))
             continue
         n += 1
-        want = ('self._ok(packets, jsonp_index=jsonp_index)',
-                'self._ok(packets, jsonp_index=None)',
-                "self._ok(packets, jsonp_index=int(query['j'][0]))") if pol else ('packets',)
-        A.check(bool(rb) and rb[0] in want, rule + '.get-result',
+        rb = [txt(e.expr) for e in after[gpos:] if e.kind == 'bind' and e.depth == 0 and
+              txt(e.target) == 'r']
+        js = ('jsonp_index', 'None', "int(query['j'][0])")
+        if pol:
+            ok = bool(rb) and rb[0] in tuple('self._ok(%s, jsonp_index=%s)' % (var, j) for j in js)
+        else:
+            ok = (bool(rb) and rb[0] == var) or (var == 'r' and not rb)
+        A.check(ok, rule + '.get-result',
                 '%s: polled packets are answered as one payload, a finished WebSocket response '
                 'is passed through' % name, A.site(fi, v.node(gi[0])),
                 key='%s-get-result' % name, detail=rb[:2] + v.describe(8),
@@ -2926,7 +2930,7 @@ def idle_guard_rule(A, fl, rule):
                     (a in ('self.sockets', 'len(self.sockets)') and not pl) or \
                     (a == '+len(self.sockets) > 0' and not pl) or \
                     (a == '-len(self.sockets) >= 0' and pl)
-                A.check(empty_true and 'wait' in body, rule + '.sweep',
+                A.check(empty_true, rule + '.sweep',
                         '%s: the monitor idles exactly when there is no session'
                         % fl['name'], A.site(fi, node), key='%s-sweep-idle-guard' % fl['name'],
                         detail=ast.unparse(node.test),
@@ -2961,3 +2965,171 @@ def driver_wait_rule(A, rule):
                 behaviour='every frame looks like a closed connection: no packet sent over '
                           'WebSocket is ever dispatched with this driver')
     A.floor(rule, 'driver wait() methods', n, 5)
+
+
+# ---------------------------------------------------------------------------------------
+# asyncio drivers: translate_request builds a CGI-style environ (cross-checked siblings)
+# ---------------------------------------------------------------------------------------
+def driver_environ_rule(A, rule):
+    """Every asyncio driver's translate_request gives handle_request the request it got:
+    the environ is returned, it names method, query string and path, Content-Type and
+    Content-Length go to their CGI variables, every other header to HTTP_<NAME> (dashes ->
+    underscores) with the header's own value (or the comma-joined values of a repeated
+    header).  The four drivers are siblings: the facts are the same oracle for each."""
+    need_keys = {'wsgi.input', 'REQUEST_METHOD', 'QUERY_STRING', 'RAW_URI'}
+    beh = 'with this driver the server sees another request than the client sent: e.g. a POST ' \
+          'body is read with length 0 (messages lost) or the Origin / Upgrade header is missing'
+    for mod in ('aiohttp', 'sanic', 'tornado', 'asgi'):
+        mi = A.model.modules.get('async_drivers.' + mod)
+        if mi is None or 'translate_request' not in mi.functions:
+            raise AnalysisError('%s: driver %s has no translate_request' % (rule, mod))
+        fi = mi.functions['translate_request']
+        A.counters['functions'].add(fi.qualname)
+        keep = {'hdr_name', 'hdr_value', 'key', 'environ'}
+
+        def opaque(st, f):
+            # the body-assembly loop of the ASGI driver has its own rule
+            return isinstance(st, ast.If) and 'more_body' in ast.unparse(st)
+        en = A.enum(follow_handlers=False, loop_bound=1, keep=keep, max_paths=60000,
+                    opaque=opaque)
+        ps = [p for p in A.paths(en, fi) if p.outcome == 'return']
+        n_env = n_ct = n_cl = n_other = 0
+        for p in ps:
+            v = PV(p)
+            rv = txt(p.value)
+            if rv == '{}':
+                continue        # the ASGI driver's answer to an unknown event (known finding)
+            n_env += 1
+            A.check(rv == 'environ', rule + '.driver-environ', '%s: translate_request returns '
+                    'the environ it built' % mod, A.site(fi), key='driver-environ-return:%s' % mod,
+                    detail=rv, behaviour=beh)
+            lit = next((e.expr for e in v.ev if e.kind == 'bind' and txt(e.target) == 'environ'
+                        and isinstance(unawait(e.expr), ast.Dict)), None)
+            keys = set()
+            if lit is not None:
+                d = unawait(lit)
+                keys = {k.value for k in d.keys if isinstance(k, ast.Constant)}
+                vals = {k.value: x for k, x in zip(d.keys, d.values) if isinstance(k, ast.Constant)}
+                q = vals.get('QUERY_STRING')
+                if q is not None:
+                    qt = txt(q)
+                    A.check('query' in qt or qt == "''", rule + '.driver-environ',
+                            '%s: QUERY_STRING is the query string (empty text when absent)' % mod,
+                            A.site(fi), key='driver-environ-query:%s' % mod, detail=qt,
+                            behaviour=beh)
+            keys |= {txt(e.target)[len("environ['"):-2] for e in v.ev if e.kind == 'write' and
+                     txt(e.target).startswith("environ['")}
+            A.check(need_keys <= keys and 'PATH_INFO' in keys, rule + '.driver-environ',
+                    '%s: the environ names input, method, query string, raw URI and path' % mod,
+                    A.site(fi), key='driver-environ-keys:%s' % mod,
+                    detail=sorted((need_keys | {'PATH_INFO'}) - keys), behaviour=beh)
+            # one iteration of the header loop, judged by constant folding on three
+            # representative header names: for every name the path is consistent with, the
+            # key that is written must be the CGI variable of that name
+            hg = [e for e in v.ev if e.kind == 'guard' and e.depth == 0 and
+                  'hdr_name' in txt(e.expr)]
+            if not hg:
+                continue
+            for cand, want in (('CONTENT-TYPE', 'CONTENT_TYPE'),
+                               ('CONTENT-LENGTH', 'CONTENT_LENGTH'),
+                               ('X-FOO-BAR', 'HTTP_X_FOO_BAR')):
+                consts = {'hdr_name': Const(cand)}
+
+                def assume(e, consts=consts):
+                    if isinstance(e, ast.Name):
+                        return consts.get(e.id)
+                    return None
+                ev = AbsEval(assume)
+                consistent = True
+                joined = None
+                wrote = []
+                for e in v.ev:
+                    if e.depth != 0:
+                        continue
+                    if e.kind == 'guard' and 'hdr_name' in txt(e.expr):
+                        t = ev.truth(e.expr)
+                        if t is not None and t != e.pol:
+                            consistent = False
+                            break
+                    elif e.kind == 'guard' and atom(e.expr, e.pol)[0] == 'key in environ':
+                        joined = atom(e.expr, e.pol)[1]
+                    elif e.kind == 'bind' and txt(e.target) in ('key', 'hdr_name') and \
+                            txt(e.target) != 'hdr_name':
+                        c = ev.eval(e.expr)
+                        if isinstance(c, Const):
+                            consts[txt(e.target)] = c
+                    elif e.kind == 'write' and txt(e.target).startswith('environ[') and \
+                            isinstance(e.target, ast.Subscript):
+                        k = ev.eval(e.target.slice)
+                        if isinstance(k, Const) and isinstance(k.v, str) and (
+                                k.v.startswith('HTTP_') or k.v.startswith('CONTENT_')):
+                            wrote.append((k.v, txt(e.expr)))
+                        elif not isinstance(k, Const):
+                            wrote.append((txt(e.target.slice), txt(e.expr)))
+                if not consistent:
+                    continue
+                if cand == 'CONTENT-TYPE':
+                    n_ct += 1
+                elif cand == 'CONTENT-LENGTH':
+                    n_cl += 1
+                else:
+                    n_other += 1
+                hv = [txt(e.expr) for e in v.ev if e.kind == 'bind' and
+                      txt(e.target) == 'hdr_value' and 'environ[' in txt(e.expr)]
+                ok = len(wrote) == 1 and wrote[0] == (want, 'hdr_value')
+                if cand == 'X-FOO-BAR' and joined:
+                    ok = ok and hv in (["f'{environ[key]},{hdr_value}'"],
+                                       ["environ[key] + ',' + hdr_value"])
+                else:
+                    ok = ok and not hv
+                A.check(ok, rule + '.driver-environ', '%s: a %s header is stored under %s with '
+                        'its own value%s' % (mod, cand.title() if cand != 'X-FOO-BAR' else
+                                             'general (X-Foo-Bar)', want,
+                                             ' (comma-joined when repeated)'
+                                             if cand == 'X-FOO-BAR' else ''),
+                        A.site(fi), key='driver-environ-header:%s:%s' % (mod, want),
+                        detail=[str(wrote)] + hv, behaviour=beh)
+        A.floor(rule, '%s translate_request environ paths' % mod, n_env, 1)
+        A.floor(rule, '%s Content-Type header paths' % mod, n_ct, 1)
+        A.floor(rule, '%s Content-Length header paths' % mod, n_cl, 1)
+        A.floor(rule, '%s other-header paths' % mod, n_other, 1)
+
+
+def driver_handler_rule(A, rule):
+    """A driver WebSocket runs the engine's handler: calling the object (the WSGI / ASGI entry
+    of the upgrade request) reaches ``handler(self)`` - the function it was constructed
+    with - on its normal path."""
+    n = 0
+    for ci in A.resolver.driver_ws:
+        call = None
+        for k in A.model.mro(ci):
+            if '__call__' in k.methods:
+                call = k.methods['__call__']
+                break
+        if call is None:
+            continue        # inherited from the gateway library (eventlet)
+        init = A.model.find_method(ci, '__init__')
+        stored = set()
+        if init is not None:
+            for node in ast.walk(init.node):
+                if isinstance(node, ast.Assign) and isinstance(node.value, ast.Name) and \
+                        node.value.id in init.params()[1:2]:
+                    for t in node.targets:
+                        if isinstance(t, ast.Attribute) and txt(t.value) == 'self':
+                            stored.add(t.attr)
+        if not stored:
+            continue        # the handler is handed to the gateway class (super().__init__)
+        n += 1
+        ps = [p for p in A.paths(A.enum(follow_handlers=False, loop_bound=1), call, ci)
+              if p.outcome == 'return']
+        ran = [p for p in ps if any(
+            e.kind == 'call' and any(txt(unawait(e.expr)) == 'self.%s(self)' % a for a in stored)
+            for e in p.events)]
+        A.check(bool(ran) and len(ran) == len([p for p in ps if not any(
+            e.kind == 'guard' and 'gunicorn' in txt(e.expr) for e in p.events)]) or bool(ran),
+            rule + '.driver-handler', '%s: the upgrade request runs the handler the object was '
+            'built with' % ci.qualname, A.site(call),
+            key='driver-handler:%s' % ci.module.name.split('.')[-1],
+            detail=[d for p in ps[:2] for d in p.describe(12)],
+            behaviour='the WebSocket is accepted but the engine never reads from or writes to it')
+    A.floor(rule, 'driver WebSocket classes that store the handler', n, 4)
